@@ -127,10 +127,13 @@ var kinds = map[string]kindDef{
 		return pick(v, map[string]enctypes.N1(nil), map[string]enctypes.N1{"a": n1(), "z": {}}, map[string]enctypes.N1{})
 	}},
 	// every integer kind with `,string` (n: maxima, e: minima / upper half of the unsigned ranges) and plain
-	"IS1": {typ: reflect.TypeOf(enctypes.IS1{}), val: func(v string) any {
+	"IS1": {typ: reflect.TypeOf(enctypes.IS1{}), tagsOnly: true, val: func(v string) any {
 		return pick(v, enctypes.IS1{},
-			enctypes.IS1{A: 127, B: 32767, C: 2147483647, D: 9223372036854775807, E: 9223372036854775807, F: 255, G: 65535, H: 4294967295, I: 18446744073709551615, J: 18446744073709551615},
-			enctypes.IS1{A: -128, B: -32768, C: -2147483648, D: -9223372036854775808, E: -9223372036854775808, F: 128, G: 50051, H: 4000000000, I: 9223372036854775808, J: 9223372036854775808})
+			enctypes.IS1{A: 127, B: 32767, C: 2147483647, D: 9223372036854775807, E: 9223372036854775807, F: 255, G: 65535, H: 4294967295, I: 9223372036854775807, J: 9223372036854775807},
+			enctypes.IS1{A: -128, B: -32768, C: -2147483648, D: -9223372036854775808, E: -9223372036854775808, F: 128, G: 50051, H: 4000000000, I: 4611686018427387905, J: 4611686018427387905})
+	}},
+	"IS64": {typ: reflect.TypeOf(enctypes.IS64{}), tagsOnly: true, val: func(v string) any {
+		return pick(v, enctypes.IS64{}, enctypes.IS64{I: 18446744073709551615, P: 18446744073709551615}, enctypes.IS64{I: 9223372036854775808, P: 1})
 	}},
 	"IP1": {typ: reflect.TypeOf(enctypes.IP1{}), val: func(v string) any {
 		return pick(v, enctypes.IP1{}, enctypes.IP1{A: 127, B: 32767, C: 2147483647, D: 9007199254740991, F: 255, G: 65535, H: 4294967295, I: 9007199254740991},
@@ -465,7 +468,8 @@ func project(rv reflect.Value) tvNode {
 		}
 		n := tvNode{"g": g, "s": strconv.FormatUint(rv.Uint(), 10), "name": namedScalar(t)}
 		if rv.Uint() > 1<<63-1 {
-			n["big"] = true // upper half of the uint64 range (a fact about the number the specification cannot read off its text)
+			n["sneg"] = strconv.FormatInt(int64(rv.Uint()), 10) // the same bits read as an int64
+			n["big"] = true                                     // upper half of the uint64 range (a fact about the number the specification cannot read off its text)
 		}
 		return n
 	case reflect.Float32:
